@@ -129,6 +129,10 @@ fn e1_main(a: &Args) -> i32 {
 
     let mut i = first + worker;
     while runs < max_runs && (started.elapsed().as_secs_f64() < seconds || runs == 0) && violations.len() < max_violations {
+        // a hang costs seconds per occurrence: one is enough to report
+        if violations.iter().any(|v| v.get("class").and_then(|c| c.as_str()) == Some("hang")) {
+            break;
+        }
         let run_seed = prng::mix(seed, &[tier_id(&tier), 1, i]);
         let t0 = Instant::now();
         let run = e1::gen_run(run_seed, &params, &corpus, &mut oracle);
